@@ -16,7 +16,7 @@ from ..interp import Event, Path
 from ..loader import AnalysisError, ClassInfo, FuncInfo, Program
 from ..model import Model
 from ..report import Run
-from ..values import (NIL, Const, FuncV, Inst, SchemaV, Sym, Term, V, is_nil)
+from ..values import (ExcV, NIL, Const, FuncV, Inst, SchemaV, Sym, Term, V, is_nil)
 from ..visits import (configs_for, make_visitor, representor_ctx, run_visit, substitutor_ctx, validator_ctx)
 
 FAMILIES = {
@@ -41,6 +41,7 @@ def check(run: Run, prog: Program, model: Model, tier: str) -> None:
         "Schema.__accept__ -> visit -> __d42_*__ -> user hook forwards value/path/indent unchanged and uses the "
         "hook names CustomSchema defines; the four entry functions pass their arguments through."
         " No function of the dispatch chain answers from instance or module-level state that the chain itself fills.")
+    run.explanation += " TRANSPARENT: on every path through Schema.__accept__ -> visit -> hook, the visitor returns exactly the hook call's result and nothing raises after the hook returned."
     run.rule_text = ("one obligation per member-descent site (ONLY-ACCEPT), per link of the dispatch chain and per entry "
                      "function; non-trivial = established on interpreter paths through inlined helpers")
     unroll = 1
@@ -84,6 +85,7 @@ def check(run: Run, prog: Program, model: Model, tier: str) -> None:
         run.violated("ONLY-ACCEPT", c, site, why,
                      witness="a CustomSchema forwarding to that built-in, placed as this member, behaves differently from the built-in")
     run.floor("ONLY-ACCEPT", 10)
+    run.floor("TRANSPARENT", 4)
 
     _dispatch_chain(run, prog, model)
     _entries(run, prog, model)
@@ -156,6 +158,29 @@ def _dispatch_chain(run: Run, prog: Program, model: Model) -> None:
                           f"{hook_name}(visitor, {', '.join(n + '=' + n for n in names)}, **kwargs)", nontrivial=True)
             if not any(k.startswith("**") for k in kw):
                 run.note("KWARGS", construct, e.loc(prog), "extra **kwargs not forwarded (built-ins ignore them as well)")
+            # ---- TRANSPARENT: what the hook answered is the visitor's answer - nothing is checked, changed or refused after it
+            tprobs: List[str] = []
+            for p2 in paths:
+                calls = [(i, e2) for i, e2 in enumerate(p2.events) if e2.kind == "call" and not e2.data.get("resolved")
+                         and isinstance(e2.data.get("callee"), Term) and e2.data["callee"].op == "getattr"]
+                if not calls:
+                    continue
+                i0, e0 = calls[-1]
+                res_key = "call(" + e0.data["callee"].key()
+                if p2.outcome == "return":
+                    if p2.value is None or not p2.value.key().startswith(res_key):
+                        tprobs.append(f"{vis}.visit returns {p2.value.key()[:40] if p2.value is not None else None}, not what {d42hook} returned")
+                elif p2.outcome == "raise" and any(e3.kind == "raise" for e3 in p2.events[i0 + 1:]):
+                    cond = [("" if b else "not ") + k for k, _, b in p2.facts[e0.nfacts:]][-1:]
+                    exc = p2.value.cls_name if isinstance(p2.value, ExcV) else "an exception"
+                    tprobs.append(f"after {d42hook} has returned, {vis}.visit may still raise {exc}"
+                                  + (f" (when {cond[0][:70]})" if cond else "") + ": a built-in member in the same place gets no such second check")
+            c2 = f"{vis}: the answer of {d42hook} is the visitor's answer"
+            if tprobs:
+                run.violated("TRANSPARENT", c2, e.loc(prog), "; ".join(sorted(set(tprobs)))[:400],
+                             witness="a custom type forwarding to schema.dict: S % {'id': 1} (partial) fails for the custom member and succeeds for the built-in one")
+            else:
+                run.holds("TRANSPARENT", c2, e.loc(prog), "returned unchanged on every path; no raise after the hook", nontrivial=True)
         # ---- link 3: CustomSchema.__d42_*__ -> user hook
         if vis == "SubstitutorValidator":
             continue
@@ -330,6 +355,10 @@ VAL = "d42/validation/_validator.py"
 SUB = "d42/substitution/_substitutor.py"
 CT = "d42/custom_type/_custom_type.py"
 MUTANTS = [
+    {"name": "Substitutor.visit re-validates what a custom hook returned (seeded C16-J)", "rule": "TRANSPARENT",
+     "edits": [("d42/substitution/_substitutor.py", "            return cast(GenericSchema, substitute_method(self, value=value, **kwargs))", "            substituted = substitute_method(self, value=value, **kwargs)\n            result = substituted.__accept__(Validator(), value=value)\n            if result.has_errors():\n                raise make_substitution_error(result, self._formatter)\n            return cast(GenericSchema, substituted)")]},
+    {"name": "neutral: hook result bound to a local before it is returned", "expect": "SILENT",
+     "edits": [("d42/substitution/_substitutor.py", "            return cast(GenericSchema, substitute_method(self, value=value, **kwargs))", "            substituted = substitute_method(self, value=value, **kwargs)\n            return cast(GenericSchema, substituted)")]},
     {"name": "Representor.visit drops indent", "rule": "DISPATCH-CHAIN",
      "edits": [(REP, "            return cast(str, represent_method(self, indent=indent, **kwargs))", "            return cast(str, represent_method(self, **kwargs))")]},
     {"name": "__d42_validate__ always makes a new path", "rule": "DISPATCH-CHAIN",
